@@ -195,6 +195,14 @@ Lemma transfer_core a b amt s s1 :
   supply s1 = supply s /\ binds s1 = binds s /\ pricing s1 = pricing s /\ time s1 = time s.
 Proof. intros E. apply transfer_frame in E. rewrite E. auto. Qed.
 
+Lemma pay_deposit_frame s k owner amt s1 :
+  pay_deposit s k owner amt = Ok s1 ->
+  supply s1 = supply s /\ binds s1 = binds s /\ pricing s1 = pricing s /\ time s1 = time s.
+Proof.
+  intros E. apply pay_deposit_inv in E. destruct E as (s0 & Et & ->).
+  apply transfer_core in Et. sproj. exact Et.
+Qed.
+
 (* ------------------------------------------------------------------ *)
 (* keeper.Slash: exact effect (property C04) *)
 
